@@ -106,8 +106,9 @@ func (p *proc) do(job *Job) (res *Result, died bool, stderr string, err error) {
 		}
 	}
 	p.stdin.Close()
-	p.cmd.Wait()
+	// drain stderr to EOF before Wait (Wait closes the pipe)
 	p.errWG.Wait()
+	p.cmd.Wait()
 	p.errMu.Lock()
 	stderr = string(p.errB)
 	p.errMu.Unlock()
